@@ -3,6 +3,13 @@ from vcore import Query
 from shapes import *
 
 
+def run_mir(tier, seed):
+    import sys, pathlib
+    sys.path.insert(0, str(pathlib.Path(__file__).resolve().parent.parent.parent / "mirsmt"))
+    import mir_check, dn
+    return mir_check.run_obligations([dn.ob_san])
+
+
 def spec(tier, seed):
     b = CertShape()
     certs = [b, replace(b, san=(1,)), replace(b, is_ca=2), replace(b, is_ca=1), replace(b, nc=1), replace(b, nc=2, nc_excl=(1,)),
@@ -21,7 +28,7 @@ def spec(tier, seed):
     # which makes the serial's length - the second field of the TBS - symbolic and the whole query intractable)
     _ = auto
     qs += [csr_query("c05", s, O_C05) for s in csrs] + [crl_query("c05", s, O_C05) for s in crls]
-    return {"queries": qs, "exhaustive": False,
+    return {"queries": qs, "mir": run_mir, "exhaustive": False,
             "bounds": "profile predicate over the decoded artefact for the listed shapes",
             "outside": "the automatic serial number clause (positive, <= 20 octets): the code is inline in the TBS closure and reads a ring Digest, "
                        "which the harness can only build by transmute; CBMC then no longer constant-propagates its first byte, the INTEGER length becomes "
